@@ -189,6 +189,9 @@ func (m *Machine) reportViolation(label string, model map[string]*big.Int) {
 		model = mod
 	}
 	v := &Violation{Label: label, Where: m.where()}
+	if m.panicDetail != "" {
+		v.Where = " " + m.panicDetail
+	}
 	v.Regions = append(v.Regions, m.regions...)
 	for _, n := range m.nondets {
 		e := ReplayEntry{Name: n.name, Kind: n.kind}
